@@ -55,13 +55,12 @@ CLAIMS = {
                  "built_reparsed + validOf_transfer (build() on the re-parsed segments gives the same segments and passes validation), hdr_builder. "
                  "media_roundtrip / media_fixed_point - the same through to_string() and the text parser, and byte-identical second serialisation, under the "
                  "per-line hypothesis LineRT (each written line's text classifies back to that line; per-tag status in DESIGN.md). k2_counterexample, "
-                 "k3_counterexample - the statement without NoK2 / NoK3 is false (recorded findings); control_roundtrip - non-vacuity. K4 violates LineRT for a key "
-                 "line with a default version list. Tie + oracle: EVERY key/map/segment event sequence over an 11-letter alphabet up to the length bound, long "
+                 "k3_counterexample - the statement without NoK2 / NoK3 is false (recorded findings); control_roundtrip - non-vacuity. Tie + oracle: EVERY key/map/segment event sequence over an 11-letter alphabet up to the length bound, long "
                  "random histories with IV/KEYFORMATVERSIONS, generated playlists with all 17 tags and the fixtures, through try_from -> to_string -> try_from -> "
-                 "to_string on library and model; status, observation, D, R and F must agree; on the library R must be '=' and F '1' except on K2, K3, K4, which "
+                 "to_string on library and model; status, observation, D, R and F must agree; on the library R must be '=' and F '1' except on K2 and K3, which "
                  "the model reproduces exactly."),
         "design_ref": "DESIGN.md §7 C03",
-        "note": "Known findings K2 (key between MAP and URI), K3 (reset followed by fewer key formats) and K4 (default KEYFORMATVERSIONS) are reported as KNOWN-FINDING.",
+        "note": "Known findings K2 (key between MAP and URI) and K3 (reset followed by fewer key formats) are reported as KNOWN-FINDING; K4 (default KEYFORMATVERSIONS dropped by the writer) was repaired by a fix: commit.",
     },
     "C04": {
         "technique": "Lean 4 proof (writer's typed lines fed to the parser's state machine give back every parser-producible value; text level through the line-splitter lemmas under per-line re-classification) + to_string/try_from round trip run on library and model",
@@ -71,11 +70,10 @@ CLAIMS = {
                  "lineItems_renderLines (Proofs/Render.lean: a written line list reads back as itself, STREAM-INF + URI pairing included) and the line-splitter lemmas, "
                  "under the per-line hypothesis LineRT (each written line's text classifies back to that line). master_fixed_point - the second serialisation is "
                  "byte-identical. PARTIAL: LineRT is discharged in Lean only for the line kinds listed in DESIGN.md section 7 (C04); for the others it is a named "
-                 "hypothesis validated by the run (tag-level R:= checks). K4 (a default KEYFORMATVERSIONS list is dropped by the writer) violates LineRT for such "
-                 "session keys and is a recorded finding. Tie + oracle: fixtures, generated and dense-combination master playlists through try_from -> to_string -> "
+                 "hypothesis validated by the run (tag-level R:= checks). Tie + oracle: fixtures, generated and dense-combination master playlists through try_from -> to_string -> "
                  "try_from -> to_string on library and model (status, observation, association lists, R and F must agree); on the library R must be '=' and F '1'."),
         "design_ref": "DESIGN.md §7 C04",
-        "note": "K4 reported as KNOWN-FINDING.",
+        "note": "K4 (default KEYFORMATVERSIONS dropped by the writer) was repaired by a fix: commit.",
     },
     "C12": {
         "technique": "Lean 4 proof at three layers (typed-line commutation and neutrality; closed forms of all attribute loops giving permutation / unknown-attribute / padding invariance; string-level dependence on trimmed non-empty lines only) + independently written text transformations run on library and model",
@@ -101,13 +99,14 @@ CLAIMS = {
                  "validated text-for-text against to_string() by the other checks. Proof (Lean 4): media_version_line / media_version_present / "
                  "master_version_line (exactly one EXT-X-VERSION line, carrying required_version(), omitted iff 1 - for ANY playlist value, parsed or built), "
                  "media_version_sound / master_version_sound (rfcMin, computed from the written lines alone with RFC 8216 section 7's table incl. the "
-                 "MAP-without-I-FRAMES-ONLY rule, never exceeds the emitted version), media_version_not_inflated_partial (emitted <= max(rfcMin, slack) with "
-                 "slack 6 for any MAP and 2 for a derived IV). PARTIAL: the hypothesis NoDefaultVersions excludes recorded finding K4, proved as "
-                 "k4_counterexample; the master 'not inflated' direction is covered by the oracle only. Tie/oracle: generated and fixture playlists, the full "
+                 "MAP-without-I-FRAMES-ONLY rule, never exceeds the emitted version), media_version_not_inflated (emitted <= max(rfcMin, slack) with "
+                 "slack 6 for any MAP and 2 for a derived IV; full statement since the fix: that writes KEYFORMATVERSIONS whenever it is set - before it the "
+                 "theorem needed the hypothesis NoDefaultVersions and K4 was its counterexample). The master 'not inflated' direction is covered by the oracle "
+                 "only. Tie/oracle: generated and fixture playlists, the full "
                  "on/off lattice of version-relevant features and built playlists; V and the VERSION line must agree between library and model; an "
                  "independent Python scanner recomputes the RFC minimum from the real to_string() text."),
         "design_ref": "DESIGN.md §7 C10",
-        "note": "K4 reported as KNOWN-FINDING.",
+        "note": "K4 (a default KEYFORMATVERSIONS list counted for version 5 without being written) was repaired by a fix: commit.",
     },
     "C20": {
         "technique": "Lean 4 proof (setter commutation, push = segments, parser = build of that builder state, no panic, numbering of built playlists) + builder-script vs text differential run",
@@ -121,7 +120,7 @@ CLAIMS = {
                  "scripts must give the same status and observation on library and model and among each other; explicit numbers <= 64 through both paths "
                  "(no panic, numbering rule); every built value's serialisation must re-parse to its content."),
         "design_ref": "DESIGN.md §7 C20",
-        "note": "Known findings K9 (a built EXT-X-MAP cannot carry its key coverage) and K4 are reported as KNOWN-FINDING; K3-shaped key histories belong to C03.",
+        "note": "Known finding K9 (a built EXT-X-MAP cannot carry its key coverage) is reported as KNOWN-FINDING; K3-shaped key histories belong to C03; K4 was repaired.",
     },
     "C14": {
         "technique": "Lean 4 proof that each tag's decision table (finish / validate) is exactly the property's rule for ALL accumulator states + exhaustive attribute-subset differential run through text, enclosing playlist and builders",
@@ -147,7 +146,7 @@ CLAIMS = {
                  "correspondence run (model's text and re-parse result must equal the library's) and on the implementation oracle parse(to_string(v)) = v, "
                  "incl. a sweep over binary32 bit patterns run inside the harness (quick 2^25, thorough all 2^32 per wrapper)."),
         "design_ref": "DESIGN.md §7 C18",
-        "note": "Known finding K4 (KEYFORMATVERSIONS=\"1\" dropped by the writer) is reported as KNOWN-FINDING.",
+        "note": "K4 (KEYFORMATVERSIONS=\"1\" dropped by the writer) was repaired by a fix: commit.",
     },
     "C17": {
         "technique": "Lean 4 proof over definitions REGENERATED from the 19 into_owned bodies on every run (translator) + differential/oracle run of into_owned, clone and the three parse entry points",
